@@ -296,6 +296,107 @@ fn concurrent_case(seed: u64, idx: u64, heavy: bool) -> CaseOut {
     co
 }
 
+/// Real threads on the *length*: inc_length/dec_length are read-modify-write operations on state behind
+/// the bar's lock, so whatever the interleaving the final length is the initial one plus the sum of all
+/// deltas (no saturation can occur with these values); a single `unset_length` from one of the threads
+/// makes the final length unknown for good (later inc/dec leave an unknown length unknown).
+fn concurrent_length_case(seed: u64, idx: u64, heavy: bool) -> CaseOut {
+    let mut rng = Rng::derive(seed, 717, idx);
+    let replay = format!("n{seed}:{idx}");
+    let threads = rng.range(2, 8) as usize;
+    let ops_per = if heavy { rng.range(500, 20_000) } else { rng.range(100, 2_000) };
+    let inc_only = rng.chance(1, 3);
+    let with_unset = rng.chance(1, 3);
+    let target_kind = rng.below(3);
+    let spy = SpyTerm::new(40, 10, false);
+    spy.state().snap_on_flush = false;
+    let target = match target_kind {
+        0 => ProgressDrawTarget::hidden(),
+        1 => ProgressDrawTarget::term_like(spy.boxed()),
+        _ => ProgressDrawTarget::term_like_with_hz(spy.boxed(), 20),
+    };
+    let len0: u64 = 1 << 40;
+    let pb = ProgressBar::with_draw_target(Some(len0), target);
+    let unset_at = rng.range(0, ops_per - 1);
+    let handles: Vec<_> = (0..threads)
+        .map(|t| {
+            let h = pb.clone();
+            let mut trng = Rng::derive(seed, 7170 + t as u64, idx);
+            std::thread::spawn(move || {
+                let mut net: i64 = 0;
+                let mut last = 0u64;
+                let mut regress = None;
+                for i in 0..ops_per {
+                    if with_unset && t == 0 && i == unset_at {
+                        h.unset_length();
+                        continue;
+                    }
+                    let d = trng.range(0, 100);
+                    if inc_only || trng.chance(1, 2) {
+                        net += d as i64;
+                        h.inc_length(d);
+                    } else {
+                        net -= d as i64;
+                        h.dec_length(d);
+                    }
+                    if i % 8 == 0 {
+                        if let Some(l) = h.length() {
+                            if inc_only && !with_unset && l < last {
+                                regress = Some((last, l));
+                            }
+                            last = l;
+                        }
+                    }
+                }
+                (net, regress)
+            })
+        })
+        .collect();
+    let mut total: i64 = 0;
+    let mut regress = None;
+    let mut panicked = false;
+    for h in handles {
+        match h.join() {
+            Ok((net, r)) => {
+                total += net;
+                regress = regress.or(r);
+            }
+            Err(_) => panicked = true,
+        }
+    }
+    let got = pb.length();
+    let want = if with_unset { None } else { Some((len0 as i64 + total) as u64) };
+    let w = J::obj()
+        .with("threads", threads)
+        .with("ops_per_thread", ops_per)
+        .with("inc_only", inc_only)
+        .with("one_unset_length", with_unset)
+        .with("target", target_kind)
+        .with("initial_length", len0.to_string());
+    let mut co = CaseOut::held(fnv1a(format!("len{threads}{ops_per}{inc_only}{with_unset}{target_kind}{idx}").as_bytes()), true);
+    let feats = vec!["concurrent".to_string(), "length".to_string()];
+    if panicked {
+        co.verdict = viol("panic", feats, "a worker thread panicked".into(), w.clone(), replay.clone());
+    } else if got != want {
+        co.verdict = viol(
+            "lost-update",
+            feats,
+            format!(
+                "length() = {got:?} after all threads joined; {}",
+                if with_unset { "one thread called unset_length() and nobody set a length afterwards, so it must be unknown".to_string() } else { format!("the initial length plus all inc_length/dec_length deltas is {want:?}") }
+            ),
+            w.clone(),
+            replay.clone(),
+        );
+    } else if let Some((a, b)) = regress {
+        co.verdict = viol("length-went-backwards", feats, format!("a thread read length {a} and later {b} in an inc_length-only run"), w.clone(), replay);
+    }
+    co.count("concurrent_length_ops", threads as u64 * ops_per);
+    co.count("frames_painted_during_concurrent_runs", spy.flushes());
+    pb.abandon();
+    co
+}
+
 pub fn run(cfg: &RunCfg) -> PropResult {
     let report = if let Some(case) = &cfg.case {
         let conc = case.starts_with('c');
@@ -303,7 +404,7 @@ pub fn run(cfg: &RunCfg) -> PropResult {
         let seed: u64 = it.next().and_then(|s| s.parse().ok()).unwrap_or(cfg.seed);
         let idx: u64 = it.next().and_then(|s| s.parse().ok()).unwrap_or(0);
         let mut r = crate::report::Report::default();
-        r.add(idx, if conc { concurrent_case(seed, idx, cfg.thorough) } else { sequential_case(seed, idx) });
+        r.add(idx, if case.starts_with('n') { concurrent_length_case(seed, idx, cfg.thorough) } else if conc { concurrent_case(seed, idx, cfg.thorough) } else { sequential_case(seed, idx) });
         r
     } else {
         let ns = if cfg.thorough { 3_000_000 } else { 60_000 };
@@ -311,11 +412,13 @@ pub fn run(cfg: &RunCfg) -> PropResult {
         let mut r = crate::report::run_parallel_tagged('s', ns, workers(), |i| sequential_case(cfg.seed, i));
         // concurrent cases bring their own threads: run a few at a time
         r.merge(crate::report::run_parallel_tagged('c', nc, 3, |i| concurrent_case(cfg.seed, i, cfg.thorough)));
+        let nn = if cfg.thorough { 3_000 } else { 120 };
+        r.merge(crate::report::run_parallel_tagged('n', nn, 4, |i| concurrent_length_case(cfg.seed, i, cfg.thorough)));
         r
     };
     PropResult {
         report,
-        rule: "sequential evaluations: 3-40 operations (inc/dec/set_position/set_length/inc_length/dec_length/unset_length/reset/finish*/abandon/update(set_pos|set_len)/tick, virtual time passing) with boundary-biased u64 arguments on hidden and visible bars, getters and fraction compared with a wrapping/saturating model after every step; concurrent evaluations: 2-16 OS threads x 1-3 clones x 100-100000 inc/dec calls on one bar (hidden, unlimited and 20 Hz spy targets, optional 1 ms steady ticker), conservation of the wrapping sum after join and monotone reads in inc-only runs; distinct = operation list hash / run parameters".into(),
+        rule: "sequential evaluations: 3-40 operations (inc/dec/set_position/set_length/inc_length/dec_length/unset_length/reset/finish*/abandon/update(set_pos|set_len)/tick, virtual time passing) with boundary-biased u64 arguments on hidden and visible bars, getters and fraction compared with a wrapping/saturating model after every step; concurrent evaluations: 2-16 OS threads x 1-3 clones x 100-100000 inc/dec calls on one bar (hidden, unlimited and 20 Hz spy targets, optional 1 ms steady ticker), conservation of the wrapping sum after join and monotone reads in inc-only runs; 2-8 threads x 100-20000 inc_length/dec_length calls (optionally one unset_length), final length = initial + sum of deltas (or unknown), monotone length reads in inc-only runs; distinct = operation list hash / run parameters".into(),
         exhaustive: false,
     }
 }
